@@ -259,6 +259,40 @@ def inexact_accelerated_gradient(kw, env):
     return f.value(x) - f.value(env.xs)
 
 
+def alternate_projections(kw, env):
+    """y_{t+1} = Proj_Q1(x_t), x_{t+1} = Proj_Q2(y_{t+1}), t < n;  ||Proj_Q1(x_n) - Proj_Q2(x_n)||^2   (||x_0 - x_*||^2 <= 1)"""
+    q1, q2 = env.f[0], env.f[1]
+    x = env.x0[0]
+    for _ in range(kw["n"]):
+        x = q2.prox(q1.prox(x, 1.0), 1.0)
+    return sq(q1.prox(x, 1.0) - q2.prox(x, 1.0))
+
+
+def averaged_projections(kw, env):
+    """x_{t+1} = (Proj_Q1(x_t) + Proj_Q2(x_t)) / 2, t < n;  ||Proj_Q1(x_n) - Proj_Q2(x_n)||^2   (||x_0 - x_*||^2 <= 1)"""
+    q1, q2 = env.f[0], env.f[1]
+    x = env.x0[0]
+    for _ in range(kw["n"]):
+        x = 0.5 * (q1.prox(x, 1.0) + q2.prox(x, 1.0))
+    return sq(q1.prox(x, 1.0) - q2.prox(x, 1.0))
+
+
+def dykstra(kw, env):
+    """p_0 = q_0 = 0;  y_t = Proj_Q1(x_t + p_t), p_{t+1} = x_t + p_t - y_t, x_{t+1} = Proj_Q2(y_t + q_t), q_{t+1} = y_t + q_t - x_{t+1};
+    ||Proj_Q1(x_n) - Proj_Q2(x_n)||^2   (||x_0 - x_*||^2 <= 1)"""
+    q1, q2 = env.f[0], env.f[1]
+    x = env.x0[0]
+    p = np.zeros_like(x)
+    q = np.zeros_like(x)
+    for _ in range(kw["n"]):
+        y = q1.prox(x + p, 1.0)
+        p = x + p - y
+        xn = q2.prox(y + q, 1.0)
+        q = y + q - xn
+        x = xn
+    return sq(q1.prox(x, 1.0) - q2.prox(x, 1.0))
+
+
 def heavy_ball_momentum(kw, env):
     """x_{-1} = x_0;  x_{t+1} = x_t - alpha grad f(x_t) + beta (x_t - x_{t-1}), t < n;  f(x_n) - f_*   (f(x_0) - f_* <= 1)"""
     f = env.f[0]
@@ -645,6 +679,9 @@ METHODS = {
     "gradient_descent_silver_stepsize_strongly_convex": gradient_descent_silver_stepsize_strongly_convex,
     "accelerated_gradient_strongly_convex": accelerated_gradient_strongly_convex,
     "heavy_ball_momentum": heavy_ball_momentum,
+    "alternate_projections_low_dim": alternate_projections,
+    "averaged_projections_low_dim": averaged_projections,
+    "dykstra_low_dim": dykstra,
     "inexact_gradient_descent": inexact_gradient_descent,
     "inexact_accelerated_gradient_1": inexact_accelerated_gradient,
     "inexact_accelerated_gradient_2": inexact_accelerated_gradient,
